@@ -231,7 +231,11 @@ pub fn model_apply(st: &Step) -> Out {
                 // a self-describing format's string that is a text rendering (hex, base64, raw characters) of a valid
                 // value: the property speaks of byte and sequence inputs; whether such a string is refused or read as
                 // that value is not decided here. A string rendering only invalid values must be refused like them.
-                for l in ["ok", "val", "repr_ok", "derived", "inplace_ok", "inplace_val", "inplace_derived"] {
+                for l in ["ok", "val", "repr_ok", "derived"] {
+                    o.any(l);
+                }
+                o.f("inplace_object_valid", true);
+                for l in ["inplace_ok", "inplace_val", "inplace_derived"] {
                     o.any(l);
                 }
                 return Out::Obs(o);
@@ -243,6 +247,7 @@ pub fn model_apply(st: &Step) -> Out {
             let der = model_derived(*ty, expect.as_deref());
             o.b("derived", &der);
             // the same record read into an existing value of the type (serde's deserialize_in_place)
+            o.f("inplace_object_valid", true);
             o.f("inplace_ok", expect.is_some());
             o.b("inplace_val", &val);
             o.b("inplace_derived", &der);
@@ -258,6 +263,7 @@ pub fn model_apply(st: &Step) -> Out {
                 o.f("ok", e.is_some());
                 o.b("val", &e.clone().unwrap_or_default());
                 o.b("derived", &model_derived(ty_, e.as_deref()));
+                o.f("inplace_object_valid", true);
                 o.f("inplace_ok", e.is_some());
                 o.b("inplace_val", &e.clone().unwrap_or_default());
             };
@@ -275,6 +281,7 @@ pub fn model_apply(st: &Step) -> Out {
                     o.any("ok");
                     o.any("val");
                     o.any("derived");
+                    o.f("inplace_object_valid", true);
                     o.any("inplace_ok");
                     o.any("inplace_val");
                     return Out::Obs(o);
@@ -311,6 +318,20 @@ enum Val {
 }
 
 impl Val {
+    /// the type's own invariant, judged by the reference model on what the object exposes
+    fn invariant_holds(&self) -> bool {
+        match self {
+            Val::Scalar(s) => refmodel::Sc::is_canonical_bytes(&s.to_bytes()),
+            Val::Ed(p) => refmodel::ed::check_extended(&curve25519_dalek::verif_hooks::edwards_coords(p)).is_ok(),
+            Val::Ris(p) => refmodel::ed::check_extended(&curve25519_dalek::verif_hooks::edwards_coords(&curve25519_dalek::verif_hooks::ristretto_inner(p))).is_ok(),
+            Val::Vk(k) => match Pt::decode(&k.to_bytes()) {
+                Some(p) => p.to_montgomery_u().to_bytes() == k.to_montgomery().to_bytes(),
+                None => false,
+            },
+            Val::Sk(k) => k.verifying_key().to_bytes() == refmodel::eddsa::public_key(&k.to_bytes()),
+            _ => true,
+        }
+    }
     /// the public half a secret key derives, as the loaded object itself reports it
     fn derived(&self) -> Vec<u8> {
         match self {
@@ -416,20 +437,28 @@ fn resident(ty: u8) -> Val {
 /// the library's Deserialize impl asked to overwrite an existing value
 fn typed_in_place<'de, D: de::Deserializer<'de>>(ty: u8, d: D) -> Result<Val, D::Error> {
     let mut place = resident(ty);
-    match &mut place {
-        Val::Scalar(x) => Deserialize::deserialize_in_place(d, x)?,
-        Val::Ed(x) => Deserialize::deserialize_in_place(d, x)?,
-        Val::CEd(x) => Deserialize::deserialize_in_place(d, x)?,
-        Val::Ris(x) => Deserialize::deserialize_in_place(d, x)?,
-        Val::CRis(x) => Deserialize::deserialize_in_place(d, x)?,
-        Val::Mont(x) => Deserialize::deserialize_in_place(d, x)?,
-        Val::Sk(x) => Deserialize::deserialize_in_place(d, x)?,
-        Val::Vk(x) => Deserialize::deserialize_in_place(d, x)?,
-        Val::Sig(x) => Deserialize::deserialize_in_place(d, x)?,
-        Val::XPub(x) => Deserialize::deserialize_in_place(d, x)?,
-        Val::XSec(x) => Deserialize::deserialize_in_place(d, x)?,
-    }
-    Ok(place)
+    let r = match &mut place {
+        Val::Scalar(x) => Deserialize::deserialize_in_place(d, x),
+        Val::Ed(x) => Deserialize::deserialize_in_place(d, x),
+        Val::CEd(x) => Deserialize::deserialize_in_place(d, x),
+        Val::Ris(x) => Deserialize::deserialize_in_place(d, x),
+        Val::CRis(x) => Deserialize::deserialize_in_place(d, x),
+        Val::Mont(x) => Deserialize::deserialize_in_place(d, x),
+        Val::Sk(x) => Deserialize::deserialize_in_place(d, x),
+        Val::Vk(x) => Deserialize::deserialize_in_place(d, x),
+        Val::Sig(x) => Deserialize::deserialize_in_place(d, x),
+        Val::XPub(x) => Deserialize::deserialize_in_place(d, x),
+        Val::XSec(x) => Deserialize::deserialize_in_place(d, x),
+    };
+    // whatever the outcome, the caller's object must still be a valid value of its type: a refused load may leave it
+    // partly overwritten (serde allows that), it may not leave a non-canonical scalar, an off-curve point or a key pair
+    // whose halves disagree behind
+    PLACE_INVALID.with(|c| c.set(c.get() || !place.invariant_holds()));
+    r.map(|_| place)
+}
+
+thread_local! {
+    static PLACE_INVALID: std::cell::Cell<bool> = const { std::cell::Cell::new(false) };
 }
 
 fn typed_load(ty: u8, fmt: u8, stream: &[u8]) -> Option<Val> {
@@ -515,7 +544,9 @@ pub fn real_apply(st: &Step) -> Out {
             o.b("val", &v.as_ref().map(|v| v.canon()).unwrap_or_default());
             o.f("repr_ok", repr_ok);
             o.b("derived", &v.as_ref().map(|v| v.derived()).unwrap_or_default());
+            PLACE_INVALID.with(|c| c.set(false));
             let w = typed_load_with(*ty, *fmt, &stream.0, true);
+            o.f("inplace_object_valid", !PLACE_INVALID.with(|c| c.get()));
             o.f("inplace_ok", w.is_some());
             o.b("inplace_val", &w.as_ref().map(|v| v.canon()).unwrap_or_default());
             o.b("inplace_derived", &w.as_ref().map(|v| v.derived()).unwrap_or_default());
@@ -536,7 +567,9 @@ pub fn real_apply(st: &Step) -> Out {
             o.b("val", &if ok { r.as_ref().ok().unwrap().canon() } else { Vec::new() });
             o.b("derived", &if ok { r.as_ref().ok().unwrap().derived() } else { Vec::new() });
             let mut de = SimDe { shape: *shape, items, pos: 0, err_at: *err_at as usize, payload: v.0[..n].to_vec() };
+            PLACE_INVALID.with(|c| c.set(false));
             let r = typed_in_place(*ty, &mut de);
+            o.f("inplace_object_valid", !PLACE_INVALID.with(|c| c.get()));
             let ok = match &r {
                 Ok(_) => de.finish().is_ok(),
                 Err(_) => false,
